@@ -535,10 +535,12 @@ func (d *Decoded) grpcStatus(h http.Header) (present bool, e *RErr) {
 		if int(st.Code) != n {
 			d.bad("grpc-status %d disagrees with details-bin code %d", n, st.Code)
 		}
-		if st.Message != e.Message {
+		// HTTP strips optional whitespace around field values, so compare modulo surrounding blanks
+		if strings.TrimSpace(st.Message) != strings.TrimSpace(e.Message) {
 			d.bad("grpc-message %q disagrees with details-bin message %q", e.Message, st.Message)
 		}
 		e.Details = st.Details
+		e.Message = st.Message // the protobuf status is authoritative
 	}
 	return true, e
 }
